@@ -60,8 +60,10 @@ inductive ArrOp where
   | arrow | darrow | seq | where_ | orderby | tupmap | sum | max | min
   deriving Inhabited, DecidableEq
 
+/-- `rel` is a relation literal `{|n1, n2| (c1, c2), …}`: a spine of rows, each row a `tup` collection that carries
+the heading's names (its denotation is the set of those tuples, whatever the order of the heading) -/
 inductive Coll where
-  | set | arr | tup | dict
+  | set | arr | tup | dict | rel
   deriving Inhabited, DecidableEq
 
 /-- compiled expressions (`rel.Expr`).  `cons name key val rest` is the spine of an element slice:
@@ -89,6 +91,7 @@ inductive Expr where
 inductive Ast where
   | num (n : Nat)
   | str (cs : List Nat)
+  | bytes (bs : List Nat)                              -- <<b0, b1, …>>
   | tt
   | ff
   | ident (x : String)
@@ -365,6 +368,7 @@ def dictEntry (k v : V) : V := V.mkTup [("@", k), ("@value", v)]
 def mkColl (k : Coll) (es : List (String × V × V)) : Res V :=
   match k with
   | .set => .ok (V.mkSet (es.map (·.2.2)))
+  | .rel => .ok (V.mkSet (es.map (·.2.2)))
   | .arr => .ok (V.mkArr (es.map (·.2.2)))
   | .tup => .ok (V.mkTup (es.reverse.map (fun e => (e.1, e.2.2))))
   | .dict =>
@@ -551,6 +555,7 @@ def foldColl (poison : Bool) (k : Coll) (items : Expr) : Expr :=
 def compileG (fold poison : Bool) : Ast → Expr
   | .num n => .lit (.num n)
   | .str cs => .lit (V.mkStr cs)
+  | .bytes bs => .lit (V.mkBytes bs)
   | .tt => .lit V.tt
   | .ff => .lit V.none
   | .ident x => .ident x
